@@ -847,6 +847,28 @@ def c08_sites(repo_root, tier):
             if isinstance(n, ast.If) and ast.unparse(n.test) == "end_block_name != block_name":
                 ok = any(isinstance(x, ast.Raise) and "TemplateInheritanceError" in ast.unparse(x) for x in n.body)
     _ob(obs, "liquid2.builtin.tags.extends_tag:BlockTag.parse/site.endblock-name", ok, "an `endblock <name>` that differs from the block's name raises TemplateInheritanceError")
+    # _find_inheritance_nodes is a full pre-order walk: every node of the template, at any depth, is classified
+    fn = m.find("_find_inheritance_nodes") if m else None
+    ok = False
+    if fn is not None:
+        visit = next((st for st in fn.body if isinstance(st, ast.FunctionDef)), None)
+        root = [st for st in fn.body if isinstance(st, ast.For) and ast.unparse(st.iter) == "template.nodes"]
+        if visit is not None and len(root) == 1:
+            vname, p0 = visit.name, visit.args.args[0].arg
+            top = [ast.unparse(st).replace("\n", " ") for st in _body_wo_doc(visit)]
+            want_b = any(t.replace("  ", " ").startswith(f"if isinstance({p0}, BlockNode): block_nodes.append({p0})") or t == f"if isinstance({p0}, BlockNode):     block_nodes.append({p0})" for t in top)
+            import re as _r
+            norm = [_r.sub(r"\s+", " ", t) for t in top]
+            want_b = f"if isinstance({p0}, BlockNode): block_nodes.append({p0})" in norm
+            want_e = f"if isinstance({p0}, ExtendsNode): extends_nodes.append({p0})" in norm
+            rec = [st for st in visit.body if isinstance(st, ast.For) and ast.unparse(st.iter).startswith(f"{p0}.children(")]
+            want_r = len(rec) == 1 and len(rec[0].body) == 1 and ast.unparse(rec[0].body[0]).startswith(f"{vname}({ast.unparse(rec[0].target)}")
+            rb = root[0].body
+            want_root = len(rb) == 1 and ast.unparse(rb[0]).startswith(f"{vname}({ast.unparse(root[0].target)}")
+            no_exit = not any(isinstance(n, (ast.Return, ast.Break, ast.Continue)) for n in ast.walk(visit))
+            ok = want_b and want_e and want_r and want_root and no_exit
+    _ob(obs, "liquid2.builtin.tags.extends_tag:_find_inheritance_nodes/site.full-preorder-walk", ok,
+        "every node of the template, at any nesting depth, is visited; each BlockNode and each ExtendsNode visited is collected (so a nested second `extends` is counted)")
     # StopRender ends the child after the base has rendered: only Template.render_with_context[_async] catches it, by `break`
     tm = repo.module("liquid2.template")
     for name in ("render_with_context", "render_with_context_async"):
